@@ -18,7 +18,7 @@ if (bempty address) then (
 Ok ((None, None))) else (
 match nth_error address 0%nat with None => Exn (IndexError) | Some c__ =>
 if (c__ =? 91)%N then (
-match (split_char 93%N (zslice (Some (1)) None address)) with
+match (rsplit_char_max 93%N (zslice (Some (1)) None address) 1%nat) with
 | [f0__; f1__] =>
 let _host := f0__ in
 let _port := f1__ in
